@@ -111,6 +111,51 @@ Theorem C18_refines_map :
 Proof. intros; cbn [step fst]; apply get_set. Qed.
 Print Assumptions C18_refines_map.
 
+(* Retention -- "periodic cleaning only removes entries older than the retention window", and
+   nothing else removes entries at all: the map has no size bound.  Once a root has been stored
+   (block event / SetBlockRootToSlot, or a successful miss), then after ANY further consistent
+   history -- however long, however many other roots it stores -- none of whose cleaning runs
+   (sequential or inside a group) finds the root's slot below the first slot of (epoch - 64), a
+   lookup of that root is a hit with the chain's slot, whatever the node would answer. *)
+Theorem C18_stored_root_stays_until_cleaned :
+  forall (slot_of : root -> slot) (ops1 : list op) (o : op) (ops2 : list op) (r : root) (f : option slot),
+    Forall (op_consistent slot_of) (ops1 ++ o :: ops2) ->
+    (o = Event r (slot_of r) \/ o = Lookup r (Some (slot_of r))) ->
+    Forall (op_keeps slot_of r) ops2 ->
+    let s := fst (run init (ops1 ++ o :: ops2)) in
+    step s (Lookup r f) = (s, OSlot (slot_of r)).
+Proof. exact stored_then_hit. Qed.
+Print Assumptions C18_stored_root_stays_until_cleaned.
+
+(* ... in every state: an entry survives any consistent op that is not a cleaning run entitled to
+   remove it. *)
+Theorem C18_entry_survives_step :
+  forall (slot_of : root -> slot) s o r,
+    Inv slot_of s -> op_consistent slot_of o -> op_keeps slot_of r o ->
+    get s r = Some (slot_of r) -> get (fst (step s o)) r = Some (slot_of r).
+Proof. exact step_keeps. Qed.
+Print Assumptions C18_entry_survives_step.
+
+(* Non-vacuity: 64 epochs of 2 slots and three slots more, a block in every slot, the cleaning job
+   running at the current epoch: the root of the window's first slot is still a hit, the one of the
+   slot before is gone. *)
+Example C18_retention_example :
+  let slot_of := fun r => r in
+  let ops := map (fun r => Event r r) (map N.of_nat (seq 8 132)) ++ [Clean 69 2] in
+  Forall (op_consistent slot_of) ops /\
+  Forall (op_keeps slot_of 10) ops /\
+  length (fst (run init ops)) = 130%nat /\
+  snd (step (fst (run init ops)) (Lookup 10 None)) = OSlot 10 /\
+  snd (step (fst (run init ops)) (Lookup 9 None)) = OErr.
+Proof.
+  cbn zeta. split; [|split; [|vm_compute; repeat split]].
+  - apply Forall_app. split; [|repeat constructor].
+    apply Forall_forall. intros o Ho. apply in_map_iff in Ho. destruct Ho as [r [<- _]]. reflexivity.
+  - apply Forall_app. split.
+    + apply Forall_forall. intros o Ho. apply in_map_iff in Ho. destruct Ho as [r [<- _]]. exact I.
+    + constructor; [right; reflexivity | constructor].
+Qed.
+
 (* Non-vacuity of the group theorems: two goroutines miss on the same root, the first one's fetch
    fails, the second one's succeeds or fails: error for the first, its own outcome for the second. *)
 Example C18_shared_failure_example :
